@@ -5,16 +5,16 @@ From YV Require Import lib.Base gen.Consts model.YMp model.YFlow4 proof.MpBytesL
 From Coq Require Import ZArith ZifyBool ZifyNat ZifyN.
 Ltac Zify.zify_post_hook ::= Z.to_euclidean_division_equations.
 
-(** comparison bits below 8 (=1, >2, >=3, <4, <=5), value on 1, 2 or 4 octets *)
-Definition wf_op (o : op) : Prop := fst o < 8 /\ (snd o < 65536 \/ 2 ^ 24 <= snd o < 2 ^ 32).
+(** comparison bits below 8 (=1, >2, >=3, <4, <=5), value below 2^32 (written on 1, 2 or 4 octets) *)
+Definition wf_op (o : op) : Prop := fst o < 8 /\ snd o < 2 ^ 32.
 
 Lemma nbytes_unfold f v : nbytes_fuel (S f) v = if v <? 256 then 1%nat else S (nbytes_fuel f (v / 256)).
 Proof. reflexivity. Qed.
 
-Lemma nbytes_cases v : (v < 65536 \/ 2 ^ 24 <= v < 2 ^ 32) ->
+Lemma nbytes_cases v : v < 2 ^ 32 ->
   exists q, q < 3 /\ nbytes v = N.to_nat (2 ^ q) /\ len_code (nbytes v) = Ok (16 * q) /\ v < 256 ^ (2 ^ q).
 Proof.
-  intros H. unfold nbytes. change 40%nat with (S (S (S (S 36)))). rewrite !nbytes_unfold.
+  intros H. unfold nbytes, nbytes_raw. change 40%nat with (S (S (S (S 36)))). rewrite !nbytes_unfold.
   destruct (v <? 256) eqn:E1.
   { exists 0. apply N.ltb_lt in E1. repeat split; try reflexivity. exact E1. }
   apply N.ltb_ge in E1.
@@ -22,7 +22,7 @@ Proof.
   { exists 1. apply N.ltb_lt in E2. repeat split; try reflexivity. change (256 ^ 2 ^ 1) with 65536. lia. }
   apply N.ltb_ge in E2.
   destruct (v / 256 / 256 <? 256) eqn:E3.
-  { apply N.ltb_lt in E3. exfalso. lia. }
+  { exists 2. repeat split; try reflexivity. change (256 ^ 2 ^ 2) with (2 ^ 32). lia. }
   apply N.ltb_ge in E3.
   destruct (v / 256 / 256 / 256 <? 256) eqn:E4.
   { exists 2. repeat split; try reflexivity. change (256 ^ 2 ^ 2) with (2 ^ 32). lia. }
@@ -83,7 +83,8 @@ Proof.
 Qed.
 
 (** defects, on concrete inputs *)
-Lemma refuted_three_octet_value : fs_construct_ops [(1, 65536)] = Exc.
+(** a 3-octet value is padded to 4 octets (was: KeyError before c08-flowspec-framing.diff) *)
+Lemma three_octet_value_padded : fs_construct_ops [(1, 65536)] = Ok [161; 0; 1; 0; 0].
 Proof. vm_compute. reflexivity. Qed.
 
 Lemma refuted_prefix_length_zero : fs_construct_prefix (0, 0) = Exc.
